@@ -89,6 +89,28 @@ def dpFuel (sqrt : α → α) (eps : α) : Nat → List (Fix α) → Option (Lis
 def douglasPeucker (sqrt : α → α) (eps : α) (L : List (Fix α)) : Option (List (Fix α)) :=
   dpFuel sqrt eps L.length L
 
+/-- **depth of the recursion** of `douglas_peucker(track, eps)`: the number of nested recursive calls below the outermost call
+(`0`: the call returns without calling itself — `n <= 2` or `dmax < eps`; a split costs one level more than the deeper of its two
+halves). The same recursion as `dpFuel`, with the results forgotten; `none` exactly when `dpFuel` is `none`. CPython needs
+`depth + 1` frames of `douglas_peucker` on top of the caller's; nothing else of the interpreter enters the model. -/
+def dpDepthFuel (sqrt : α → α) (eps : α) : Nat → List (Fix α) → Option Nat
+  | _, [] => some 0
+  | _, [_] => some 0
+  | _, [_, _] => some 0
+  | 0, _ :: _ :: _ :: _ => none
+  | fuel + 1, a :: p :: q :: rest =>
+    let L := a :: p :: q :: rest
+    let b := (q :: rest).getLast (List.cons_ne_nil _ _)
+    let r := farthest sqrt a b L 0 0 0
+    if r.1 < eps then some 0
+    else
+      match dpDepthFuel sqrt eps fuel (L.take r.2), dpDepthFuel sqrt eps fuel (L.drop r.2) with
+      | some d1, some d2 => some (1 + Nat.max d1 d2)
+      | _, _ => none
+
+def dpDepth (sqrt : α → α) (eps : α) (L : List (Fix α)) : Option Nat :=
+  dpDepthFuel sqrt eps L.length L
+
 /-! ### the freedom left by ties: every output Douglas–Peucker can produce when *any* farthest fix
 (not necessarily the first one) is taken as the split point. Used by the correspondence check to
 accept a different tie-break, never by the theorems about the code's own choice. -/
